@@ -44,6 +44,22 @@ impl Cat {
         }
         v
     }
+    /// Compiled entries (outside the `invalid` group) that the library reports invalid although the documented
+    /// rules make them valid in this feature set: every parse / write with such a format only returns a
+    /// configuration error, and the checks would silently skip it. (name, description)
+    pub fn unexpectedly_invalid(&self, groups: &[&str]) -> Vec<(String, String)> {
+        let feat = features();
+        let mut v = Vec::new();
+        for (i, e) in self.entries.iter().enumerate() {
+            if e.group == "invalid" || !groups.contains(&e.group) || e.is_valid {
+                continue;
+            }
+            if self.models[i].validity(feat).is_none() {
+                v.push((e.name.to_string(), self.models[i].describe()));
+            }
+        }
+        v
+    }
     /// indices of entries whose packed value is distinct (first occurrence wins), filtered
     pub fn distinct(&self, idxs: &[usize]) -> Vec<usize> {
         let mut seen = std::collections::HashSet::new();
